@@ -129,9 +129,8 @@ def model_check(cfg_name, timeout=600, module="MC_Eco", invariants=None, propert
         shutil.rmtree(d, ignore_errors=True)
 
 
-def simulate(cfg_name, num, depth, seed, module="MC_Eco", timeout=600):
-    """TLC -simulate on the configuration's GenNext; returns the behaviours as
-    lists of parsed states."""
+def _simulate_one(args):
+    cfg_name, num, depth, seed, module, timeout = args
     d = scratch("sim")
     try:
         _copy_spec(d)
@@ -148,13 +147,29 @@ def simulate(cfg_name, num, depth, seed, module="MC_Eco", timeout=600):
                                  "-depth", str(depth), "-seed", str(seed)], timeout, workers=1)
         files = sorted(os.listdir(os.path.join(d, "b")))
         if not files:
-            raise Inconclusive("TLC simulation produced no behaviours:\n" + out[-3000:])
+            return ("error", "TLC simulation produced no behaviours:\n" + out[-3000:])
         behs = []
         for f in files:
             behs.append(tlaval.parse_behaviour_file(os.path.join(d, "b", f)))
-        return behs
+        return ("ok", behs)
     finally:
         shutil.rmtree(d, ignore_errors=True)
+
+
+def simulate(cfg_name, num, depth, seed, module="MC_Eco", timeout=900, procs=None):
+    """TLC -simulate on the configuration's GenNext, split over several TLC
+    processes with distinct seeds; returns the behaviours as lists of parsed states."""
+    import concurrent.futures
+    procs = procs or min(8, max(1, num // 8))
+    per = (num + procs - 1) // procs
+    jobs = [(cfg_name, per, depth, seed * 7919 + k * 104729 + 1, module, timeout) for k in range(procs)]
+    behs = []
+    with concurrent.futures.ThreadPoolExecutor(max_workers=procs) as ex:
+        for st, r in ex.map(_simulate_one, jobs):
+            if st != "ok":
+                raise Inconclusive(r)
+            behs += r
+    return behs[:num]
 
 
 # ---------------------------------------------------------------- behaviours -> harness
